@@ -1,5 +1,6 @@
 // common.h: shared harness conventions (DESIGN.md section 3)
 #pragma once
+#include <algorithm>
 #include <cstdio>
 #include <cstring>
 #include <functional>
@@ -60,3 +61,132 @@ inline mcrt::Bounds tier_bounds(const mcrt::Options& o, int Pq, int Pt)
 }
 
 }  // namespace hx
+
+// ---------------------------------------------------------------------------
+// Ghost access windows (DESIGN.md section 3): overlap of a WRITE window with any
+// other window of another fiber on the same object is a violation.
+namespace hx {
+
+struct WinSlot {
+    const void* addr;
+    int readers[8];
+    int writers[8];
+};
+extern WinSlot g_win[32];
+extern int g_nwin;
+extern uint64_t g_win_shared_reads;  // times two READ windows of different fibers were open at once
+
+inline void win_reset()
+{
+    g_nwin = 0;
+    g_win_shared_reads = 0;
+}
+inline WinSlot& win_of(const void* a)
+{
+    for (int i = 0; i < g_nwin; i++)
+        if (g_win[i].addr == a) return g_win[i];
+    if (g_nwin >= 32) mcrt::fail("INTERNAL", "too many window objects");
+    WinSlot& w = g_win[g_nwin++];
+    w.addr = a;
+    memset(w.readers, 0, sizeof w.readers);
+    memset(w.writers, 0, sizeof w.writers);
+    return w;
+}
+inline void win_open(const void* a, bool write, const char* what)
+{
+    WinSlot& w = win_of(a);
+    int me = mcrt::self();
+    for (int t = 0; t < 8; t++) {
+        if (t == me) continue;
+        if (w.writers[t] > 0)
+            mcrt::fail("overlap", "%s: fiber %d starts a %s access to the protected object while fiber %d is inside a "
+                       "write access to it", what, me, write ? "write" : "read", t);
+        if (write && w.readers[t] > 0)
+            mcrt::fail("overlap", "%s: fiber %d starts a write access to the protected object while fiber %d is inside "
+                       "a read access to it", what, me, t);
+        if (!write && w.readers[t] > 0) g_win_shared_reads++;
+    }
+    (write ? w.writers : w.readers)[me]++;
+}
+inline void win_close(const void* a, bool write)
+{
+    WinSlot& w = win_of(a);
+    (write ? w.writers : w.readers)[mcrt::self()]--;
+}
+struct ReadWin {
+    const void* a;
+    explicit ReadWin(const void* p, const char* what = "read"): a(p) { win_open(a, false, what); }
+    ~ReadWin() { win_close(a, false); }
+};
+struct WriteWin {
+    const void* a;
+    explicit WriteWin(const void* p, const char* what = "write"): a(p) { win_open(a, true, what); }
+    ~WriteWin() { win_close(a, true); }
+};
+
+// fault-injection sites used by payload operations (C20)
+enum Site { SITE_COPY = 0, SITE_ASSIGN = 1, SITE_EQ = 2, SITE_FUNC = 3, SITE_PRED = 4, SITE_CALLBACK = 5, SITE_FUNC2 = 6 };
+
+// Multi-word payload with invariant a == b whose torn state is observable and
+// whose operations contain scheduling points.
+struct Pair {
+    int a, b;
+    Pair(): a(0), b(0) {}
+    explicit Pair(int v): a(v), b(v) {}
+    Pair(const Pair& o)
+    {
+        mcrt::may_throw(SITE_COPY);
+        ReadWin r(&o, "copy-construct (source)");
+        a = o.a;
+        mcrt::point();
+        b = o.b;
+    }
+    Pair& operator=(const Pair& o)
+    {
+        mcrt::may_throw(SITE_ASSIGN);
+        WriteWin w(this, "assignment (target)");
+        ReadWin r(&o, "assignment (source)");
+        a = o.a;
+        mcrt::point();
+        b = o.b;
+        return *this;
+    }
+    bool operator==(const Pair& o) const
+    {
+        mcrt::may_throw(SITE_EQ);
+        ReadWin r1(this, "compare"), r2(&o, "compare");
+        bool x = (a == o.a);
+        mcrt::point();
+        return x && b == o.b;
+    }
+    ~Pair() { a = b = -559038737; }
+    bool ok() const { return a == b; }
+};
+
+// read a Pair through a handle/reference the way a client would
+inline int read_pair(const Pair& p, const char* what)
+{
+    ReadWin r(&p, what);
+    int x = p.a;
+    mcrt::point();
+    int y = p.b;
+    MC_CHECK(x == y, "torn-read", "%s: observed a half-written value (a=%d, b=%d)", what, x, y);
+    return x;
+}
+inline void bump_pair(Pair& p, const char* what)
+{
+    WriteWin w(&p, what);
+    ++p.a;
+    mcrt::point();
+    ++p.b;
+}
+
+}  // namespace hx
+
+#ifdef HX_MAIN
+namespace hx {
+WinSlot g_win[32];
+int g_nwin;
+uint64_t g_win_shared_reads;
+}  // namespace hx
+#endif
